@@ -211,36 +211,124 @@ theorem hinstances_netlist_spec {d : Design} (hwf : WF d) (hs : Acyclic d) {t : 
   `hrefs_of_pin_spec`, `hrefs_of_cable_spec`, `hrefs_of_wire_spec`); collected here. -/
 
 /-- **asking for the occurrences of an element returns exactly the valid paths that end in it**
-    (upward bound set + pruned downward search = the inductive definition).  `finished` is the flag
-    of the upward closure; `AllInNl`: no definition was removed from its library. -/
-theorem hrefs_of_item_spec {d : Design} (hwf : WF d) (hs : Acyclic d) (hall : AllInNl d) {t : Inst}
+    (upward bound set + pruned downward search = the inductive definition).  No side condition on
+    libraries: the (repaired) code finds the netlist through the instances *and their ancestors*, and
+    whenever an occurrence exists the top instance is among them — so the statement also holds after a
+    definition was removed from its library.  No `finished` hypothesis (`search_finished`). -/
+theorem hrefs_of_item_spec {d : Design} (hwf : WF d) (hs : Acyclic d) {t : Inst}
     (ht : d.topInst = some t) (x : Nat) :
-    (netlistOk d [x] = true → (hrefsOfItem d (.instance x)).2 = true →
-      ∀ h, h ∈ (hrefsOfItem d (.instance x)).1 ↔ ∃ c, Occ d h (.inst c) ∧ c.id = x) ∧
-    ((hrefsOfItem d (.port x)).2 = true →
-      ∀ h, h ∈ (hrefsOfItem d (.port x)).1 ↔ ∃ P, Occ d h (.port P) ∧ P.id = x) ∧
-    ((hrefsOfItem d (.innerPin x)).2 = true →
-      ∀ h, h ∈ (hrefsOfItem d (.innerPin x)).1 ↔ ∃ P, Occ d h (.pin P x)) ∧
-    ((hrefsOfItem d (.cable x)).2 = true →
-      ∀ h, h ∈ (hrefsOfItem d (.cable x)).1 ↔ ∃ C, Occ d h (.cable C) ∧ C.id = x) ∧
-    ((hrefsOfItem d (.wire x)).2 = true →
-      ∀ h, h ∈ (hrefsOfItem d (.wire x)).1 ↔ ∃ C w, Occ d h (.wire C w) ∧ w.id = x) :=
-  ⟨fun hok hfin h => hrefs_of_instance_spec hwf hs x hok ht hfin h,
-   fun hfin h => hrefs_of_port_spec hwf hs hall x ht hfin h,
-   fun hfin h => hrefs_of_pin_spec hwf hs hall x ht hfin h,
-   fun hfin h => hrefs_of_cable_spec hwf hs hall x ht hfin h,
-   fun hfin h => hrefs_of_wire_spec hwf hs hall x ht hfin h⟩
+    (∀ h, h ∈ (hrefsOfItem d (.instance x)).1 ↔ ∃ c, Occ d h (.inst c) ∧ c.id = x) ∧
+    (∀ h, h ∈ (hrefsOfItem d (.port x)).1 ↔ ∃ P, Occ d h (.port P) ∧ P.id = x) ∧
+    (∀ h, h ∈ (hrefsOfItem d (.innerPin x)).1 ↔ ∃ P, Occ d h (.pin P x)) ∧
+    (∀ h, h ∈ (hrefsOfItem d (.cable x)).1 ↔ ∃ C, Occ d h (.cable C) ∧ C.id = x) ∧
+    (∀ h, h ∈ (hrefsOfItem d (.wire x)).1 ↔ ∃ C w, Occ d h (.wire C w) ∧ w.id = x) :=
+  ⟨fun h => hrefs_of_instance_spec hwf hs x ht (hrefsOfItem_finished hwf _) h,
+   fun h => hrefs_of_port_spec hwf hs x ht (hrefsOfItem_finished hwf _) h,
+   fun h => hrefs_of_pin_spec hwf hs x ht (hrefsOfItem_finished hwf _) h,
+   fun h => hrefs_of_cable_spec hwf hs x ht (hrefsOfItem_finished hwf _) h,
+   fun h => hrefs_of_wire_spec hwf hs x ht (hrefsOfItem_finished hwf _) h⟩
 
-/-- the instances of a definition: `get_hinstances(definition)` -/
-theorem hinstances_of_definition_spec {d : Design} (hwf : WF d) (hs : Acyclic d) (k : Nat) {D : Defn}
-    (hD : d.defs[k]? = some D) (hin : D.inNl = true) {t : Inst} (ht : d.topInst = some t) (rec : Bool)
-    (hfin : (getHInstances d (.definition k) rec).2 = true) :
+/-- the instances of a definition: `get_hinstances(definition)` (also for a definition that was removed
+    from its library but is still instantiated) -/
+theorem hinstances_of_definition_spec {d : Design} (hwf : WF d) (hs : Acyclic d) (k : Nat)
+    {t : Inst} (ht : d.topInst = some t) (rec : Bool) :
     (∀ h, h ∈ (getHInstances d (.definition k) rec).1 ↔ ∃ c, Occ d h (.inst c) ∧ c.ref = some k) ∧
     (getHInstances d (.definition k) rec).1.Nodup := by
-  simp only [getHInstances] at hfin ⊢
+  simp only [getHInstances]
   refine ⟨fun h => ?_, nodup_dedup _⟩
   rw [mem_dedup]
-  exact mem_allHrefs_refsOf hwf hs hD hin ht hfin h
+  exact mem_allHrefs_refsOf hwf hs k ht (allHrefs_finished hwf _) h
+
+/-! roots `library` and `outerPin`, and references that are not occurrences -/
+
+theorem hrefs_of_library_spec {d : Design} (hwf : WF d) (hs : Sorted d) (ds : List Nat) {t : Inst}
+    (ht : d.topInst = some t) (h : HRef) :
+    h ∈ (hrefsOfItem d (.library ds)).1 ↔ ∃ k ∈ ds, ∃ c, Occ d h (.inst c) ∧ c.ref = some k := by
+  simp only [hrefsOfItem, List.mem_flatMap, List.mem_map]
+  constructor
+  · rintro ⟨r, ⟨k, hk, rfl⟩, hm⟩
+    exact ⟨k, hk, (mem_allHrefs_refsOf hwf hs k ht (allHrefs_finished hwf _) h).mp hm⟩
+  · rintro ⟨k, hk, hc⟩
+    exact ⟨_, ⟨k, hk, rfl⟩, (mem_allHrefs_refsOf hwf hs k ht (allHrefs_finished hwf _) h).mpr hc⟩
+
+theorem hinstances_of_library_spec {d : Design} (hwf : WF d) (hs : Sorted d) (ds : List Nat) {t : Inst}
+    (ht : d.topInst = some t) (rec : Bool) :
+    (∀ h, h ∈ (getHInstances d (.library ds) rec).1 ↔ ∃ c, Occ d h (.inst c) ∧ ∃ k ∈ ds, c.ref = some k) ∧
+    (getHInstances d (.library ds) rec).1.Nodup ∧ (getHInstances d (.library ds) rec).2 = true := by
+  simp only [getHInstances]
+  refine ⟨fun h => ?_, nodup_dedup _, allHrefs_finished hwf _⟩
+  rw [mem_dedup, mem_allHrefs hwf hs _ ht (allHrefs_finished hwf _)]
+  constructor
+  · rintro ⟨c, ho, hm⟩
+    obtain ⟨k, hk, hck⟩ := List.mem_flatMap.mp hm
+    exact ⟨c, ho, k, hk, (hwf.mem_refsOf_occ ho k).mp hck⟩
+  · rintro ⟨c, ho, k, hk, hr⟩
+    exact ⟨c, ho, List.mem_flatMap.mpr ⟨k, hk, (hwf.mem_refsOf_occ ho k).mpr hr⟩⟩
+
+/-- occurrences of an outer pin `(c, q)`: the pin `q` (under its port) inside every occurrence of `c` -/
+theorem hrefs_of_outerPin_spec {d : Design} (hwf : WF d) (hs : Sorted d) (c q : Nat) {t : Inst}
+    (ht : d.topInst = some t) (h : HRef) :
+    h ∈ (hrefsOfItem d (.outerPin c q)).1 ↔
+      ∃ (k : Nat) (D : Defn) (P : Port) (p : HRef) (ci : Inst), d.defs[k]? = some D ∧ P ∈ D.ports ∧ q ∈ P.pins ∧
+        Occ d p (.inst ci) ∧ ci.id = c ∧ h = q :: P.id :: p := by
+  simp only [hrefsOfItem]
+  cases hdw : d.defWith (fun D => (D.portOfPin q).isSome) with
+  | none =>
+    simp only [List.not_mem_nil, false_iff]
+    rintro ⟨k, D, P, p, ci, hD, hP, hq, _⟩
+    have hl : D.LocalWF := hwf.localWF (mem_defs_of_get hD)
+    obtain ⟨k', hk'⟩ := defWith_exists (f := fun D => (D.portOfPin q).isSome) hD (by simp [hl.portOfPin_eq hP hq])
+    rw [hk'] at hdw
+    cases hdw
+  | some k0 =>
+    obtain ⟨Dk, hDk, hf⟩ := defWith_some hdw
+    obtain ⟨P0, hP0⟩ := Option.isSome_iff_exists.mp hf
+    obtain ⟨hP0m, hP0q⟩ := Defn.portOfPin_some hP0
+    simp only [hDk, Option.bind_some, hP0, List.mem_map]
+    constructor
+    · rintro ⟨p, hp, rfl⟩
+      obtain ⟨ci, hci, hid⟩ := (mem_allHrefs hwf hs [c] ht (allHrefs_finished hwf _) p).mp hp
+      exact ⟨k0, Dk, P0, p, ci, hDk, hP0m, hP0q, hci, by simpa using hid, rfl⟩
+    · rintro ⟨k, D, P, p, ci, hD, hP, hq, hci, hid, rfl⟩
+      have hrk : k = k0 := flatMap_index_unique hwf.2.2.2.1 hD hDk
+        (List.mem_flatMap.mpr ⟨P, hP, hq⟩) (List.mem_flatMap.mpr ⟨P0, hP0m, hP0q⟩)
+      subst hrk
+      obtain rfl : Dk = D := Option.some.inj (hDk.symm.trans hD)
+      have hl : Dk.LocalWF := hwf.localWF (mem_defs_of_get hD)
+      have : P0 = P := by
+        have := hl.portOfPin_eq hP hq
+        rw [hP0] at this
+        exact Option.some.inj this
+      subst this
+      exact ⟨p, (mem_allHrefs hwf hs [c] ht (allHrefs_finished hwf _) p).mpr ⟨ci, hci, by simpa using hid⟩, rfl⟩
+
+theorem hinstances_of_outerPin_spec {d : Design} (hwf : WF d) (hs : Sorted d) (c q : Nat) {t : Inst}
+    (ht : d.topInst = some t) (rec : Bool) :
+    (∀ h, h ∈ (getHInstances d (.outerPin c q) rec).1 ↔ ∃ ci, Occ d h (.inst ci) ∧ ci.id = c) ∧
+    (getHInstances d (.outerPin c q) rec).1.Nodup := by
+  simp only [getHInstances]
+  refine ⟨fun h => ?_, nodup_dedup _⟩
+  rw [mem_dedup, mem_allHrefs hwf hs _ ht (allHrefs_finished hwf _)]
+  simp
+
+/-- **a reference that is not an occurrence answers nothing**, whatever the query -/
+theorem queries_on_invalid {d : Design} (hwf : WF d) (h : HRef) (rec : Bool) (sel : Sel) (hnv : ¬ ValidPath d h) :
+    getHInstances d (.href h) rec = ([], true) ∧ getHPorts d (.href h) rec = ([], true) ∧
+    getHPins d (.href h) rec = ([], true) ∧ getHCables d (.href h) rec sel = ([], true) ∧
+    getHWires d (.href h) rec sel = ([], true) := by
+  have hres : resolve d h = none := by
+    cases hr : resolve d h with
+    | none => rfl
+    | some e => exact absurd ⟨e, resolve_sound d h e hr⟩ hnv
+  have hw : hwiresOfHRef d rec sel h = ([], true) := by unfold hwiresOfHRef; rw [hres]
+  have hc : hcablesOfHRef d rec sel h = ([], true) := by unfold hcablesOfHRef; rw [hres]; simp [hw]
+  refine ⟨?_, ?_, ?_, ?_, ?_⟩
+  · simp [getHInstances, hinstsOfHRef, hres, dedup]
+  · simp [getHPorts, hrefsOfItem, hportsOfHRef, hres, dedup]
+  · simp [getHPins, hrefsOfItem, hpinsOfHRef, hres, dedup]
+  · simp [getHCables, hrefsOfItem, hc, dedup]
+  · simp [getHWires, hrefsOfItem, hw, dedup]
+
 
 /-- the queries on an element are the union of the queries on its occurrences -/
 theorem hports_of_root (d : Design) (root : Root) (rec : Bool) (x : HRef) :
@@ -343,7 +431,8 @@ theorem instNames_exists {d : Design} {p : HRef} {e : Elem} (ho : Occ d p e) :
   | cable _ _ _ _ _ => intro c hc; cases hc
   | wire _ _ _ => intro c hc; cases hc
 
-/-! ### canonicity -/
+/-! ### canonicity (the flyweight theorems `intern_*` carry the content; `eq_iff_same_path` and `hash_congr`
+    only record that the model's `__eq__`/`__hash__` are functions of the path) -/
 
 /-- `HRef.__eq__` is equality of paths -/
 theorem eq_iff_same_path (a b : HRef) : hrefEq a b = true ↔ a = b := hrefEq_iff a b
@@ -383,7 +472,6 @@ theorem isUnique_invalid {d : Design} (hwf : WF d) (h : HRef) (hnv : ¬ ValidPat
 
 example : WF exD := by decide
 example : Acyclic exD := by decide
-example : AllInNl exD := by decide
 example : exD.topInst = some ⟨12, "top", some 2⟩ := by decide
 example : isValid exD [7, 6, 9, 12] = true := by decide
 example : isValid exD [7, 6, 12] = false := by decide
